@@ -10,7 +10,7 @@ with max_iter=j.
 import numpy as np
 
 import fsic
-from fsic.extensions import TracerMixin
+from fsic.extensions import AliasMixin, TracerMixin
 
 from .. import refsolve, scripted
 from ..core.observe import canon
@@ -33,6 +33,37 @@ _INFO = None
 
 class TScripted(TracerMixin, scripted.ScriptedBase, fsic.BaseModel):
     pass
+
+
+# the tracer combined with the alias mixin (either order): a variable may be named by an alias in trace=...
+_ALIASES = {'alpha': 'A', 'beta': 'B', 'first': 'alpha', 'ab': 'AB'}
+
+
+class ATScripted(AliasMixin, TracerMixin, scripted.ScriptedBase, fsic.BaseModel):
+    ALIASES = dict(_ALIASES)
+
+
+class TAScripted(TracerMixin, AliasMixin, scripted.ScriptedBase, fsic.BaseModel):
+    ALIASES = dict(_ALIASES)
+
+
+# the documented way to move the traces out of the way of a model variable called 'trace'
+class RScripted(TracerMixin, scripted.ScriptedBase, fsic.BaseModel):
+    TRACE_NAME = 'history'
+
+
+CLASSES = {'T': TScripted, 'AT': ATScripted, 'TA': TAScripted, 'R': RScripted}
+ALIAS_TRACE_ARGS = [['alpha', 'B'], 'first', ['beta', 'ab', 'X'], 'alpha']
+
+
+def canonical(n):
+    while n in _ALIASES:
+        n = _ALIASES[n]
+    return n
+
+
+def traces_of(m):
+    return m[type(m).TRACE_NAME]
 
 
 TRACE_ARGS = [True, ['A', 'B'], 'A', ['X', 'C', 'A'], 'AB', ['AB']]
@@ -120,7 +151,8 @@ def run_case(case):
     exp = refsolve.ref_trace(opts, hist_full)
     kw = dict(min_iter=opts['minIter'], max_iter=opts['maxIter'], tol=scripted.TOL, failures=opts['failures'],
               errors=opts['errors'], catch_first_error=opts['cfe'])
-    traced, untraced, plain = build(TScripted, opts, hist), build(TScripted, opts, hist), build(scripted.Scripted, opts, hist)
+    TCls = CLASSES[case.get('cls', 'T')]
+    traced, untraced, plain = build(TCls, opts, hist), build(TCls, opts, hist), build(scripted.Scripted, opts, hist)
     init = values_of(traced, ['A', 'B', 'C', 'X', 'AB'], 1)
     out = []
     r1 = call(traced, entry, dict(kw, trace=arg))
@@ -130,19 +162,19 @@ def run_case(case):
         out.append(('differential:result', {'plain': rp}, {'traced': r1, 'untraced': r0}, 'tracing changed the result/exception'))
     if not (model_state(traced) == model_state(untraced) == model_state(plain)):
         out.append(('differential:state', 'equal values/status/iterations', 'differ', 'tracing changed the stored solution'))
-    if not all(tr.is_empty() and tr.index == [] for tr in untraced.trace):
-        out.append(('untraced:trace-written', 'all traces empty', [list(tr.index) for tr in untraced.trace], 'a trace was written with tracing off'))
+    if not all(tr.is_empty() and tr.index == [] for tr in traces_of(untraced)):
+        out.append(('untraced:trace-written', 'all traces empty', [list(tr.index) for tr in traces_of(untraced)], 'a trace was written with tracing off'))
     if case.get('off_variants'):
         for off in (None, False):
-            tw = build(TScripted, opts, hist)
+            tw = build(TCls, opts, hist)
             roff = call(tw, entry, dict(kw, trace=off))
             if roff != rp or model_state(tw) != model_state(plain):
                 out.append(('differential:trace=%r' % off, {'plain': rp}, {'trace=%r' % off: roff}, 'an explicit trace=%r changed the solution' % off))
-            if not all(tr.is_empty() and tr.index == [] for tr in tw.trace):
-                out.append(('untraced:trace-written:trace=%r' % off, 'all traces empty', [list(tr.index) for tr in tw.trace], 'a trace was written with trace=%r' % off))
-    if not all(tr.is_empty() for i, tr in enumerate(traced.trace) if i != 1):
-        out.append(('traced:other-period', 'only period 1 traced', [list(tr.index) for tr in traced.trace], 'trace written for another period'))
-    tr = traced.trace[1]
+            if not all(tr.is_empty() and tr.index == [] for tr in traces_of(tw)):
+                out.append(('untraced:trace-written:trace=%r' % off, 'all traces empty', [list(tr.index) for tr in traces_of(tw)], 'a trace was written with trace=%r' % off))
+    if not all(tr.is_empty() for i, tr in enumerate(traces_of(traced)) if i != 1):
+        out.append(('traced:other-period', 'only period 1 traced', [list(tr.index) for tr in traces_of(traced)], 'trace written for another period'))
+    tr = traces_of(traced)[1]
     labels = list(tr.index)
     allowed = expected_labels(exp, opts, hist_full)
     names = names_for(arg)
@@ -154,9 +186,9 @@ def run_case(case):
         elif tr.values.shape != (len(names), len(labels)):
             out.append(('shape', [len(names), len(labels)], list(tr.values.shape), 'trace array shape'))
         else:
-            idx = [['A', 'B', 'C', 'X', 'AB'].index(n) for n in names]
+            idx = [['A', 'B', 'C', 'X', 'AB'].index(canonical(n)) for n in names]
             log = [e for e in traced.sc_log() if e[0] == 'eval']
-            final = values_of(traced, names, 1)
+            final = values_of(traced, [canonical(n) for n in names], 1)
             after_pre = list(init)
             after_pre[2] += 1000.0  # the scripted pre-solution hook adds 1000 to C
             post_ran = traced.sc_count('post') > 0
@@ -191,7 +223,7 @@ def run_case(case):
         r0b = call(untraced, entry, kw)
         if r1b != r0b or model_state(traced) != model_state(untraced):
             out.append(('differential:second-solve', r0b, r1b, 'tracing changed the second solve'))
-        labels2 = list(traced.trace[1].index)
+        labels2 = list(traces_of(traced)[1].index)
         if labels2[:n1] != labels:
             out.append(('labels:first-segment-lost', labels, labels2[:n1], 'reset=False must keep the earlier segment'))
         elif labels2[n1:] not in expected_labels(exp2, opts2, ['moved'] * 16):
@@ -221,6 +253,24 @@ def run_traces(block, tier, acc):
                 acc.nontrivial += bool(nontrivial)
                 for key, exp, obs, what in v:
                     acc.violation(key + ':' + entry, case, exp, obs, what)
+        # the other tracer classes: aliases in trace=..., a renamed trace attribute
+        extra = [('AT', ALIAS_TRACE_ARGS[0], 'solve_t'), ('AT', 'first', 'solve'), ('TA', ALIAS_TRACE_ARGS[2], 'solve_t'), ('TA', 'alpha', 'solve_period'),
+                 ('R', True, 'solve_t'), ('R', 'AB', 'solve')]
+        if tier != 'quick':
+            extra += [(c, a, e) for c in ('AT', 'TA') for a in ALIAS_TRACE_ARGS + [True] for e in ('solve_t', 'solve')] + [('R', ['A', 'B'], 'solve_period')]
+        for cname, arg, entry in extra:
+            if True:
+                case = {'kind': 'trace', 'opts': opts, 'hist': hist, 'trace': arg, 'entry': entry, 'again': False, 'off_variants': arg is True, 'cls': cname}
+                acc.evaluations += 1
+                try:
+                    with guard(5):
+                        v, nontrivial = run_case(case)
+                except CaseTimeout:
+                    acc.violation('timeout', case, 'termination', 'timeout')
+                    continue
+                acc.nontrivial += bool(nontrivial)
+                for key, exp, obs, what in v:
+                    acc.violation(key + ':' + entry + ':' + cname, case, exp, obs, what)
         acc.sample({'opts': opts, 'hist': hist, 'trace': 'True', 'entry': 'solve_t'}, limit=3)
 
 
